@@ -148,6 +148,48 @@ def run(chk):
         chk.ob("C08.B.assumptions-forwarded", f"model_count::{tag}", len(calls) == 1 and calls[0][0] is c and calls[0][1] == asm, file=FILE, func="model_count", line=fm.node.lineno,
                fact={"construct_solver_calls": len(calls), "assumptions_seen": str(calls[0][1]) if calls else None}, expect=str(asm))
 
+    # ---- B (values): model_count end to end - cnf + add_assumptions + construct_solver + the counting loop from source,
+    # DPLL solver model; compared with the definition (startpoint valuations that extend to a consistent valuation
+    # satisfying the assumptions), incl. unloaded startpoints carrying an assumption, contradictory assumptions,
+    # internal nodes, blackbox pins, constants, cyclic circuits
+    import itertools as _it
+    from ..refmodel import build as _build
+    from ..satpipe import agrees, consistent_valuations, pipeline_package
+
+    I_ = ("input", [])
+    cmodels = {
+        "unloaded-startpoints": _build({"a": I_, "b": I_, "spare": I_, "u.q": ("bb_output", []), "g": ("and", ["a", "b"]), "h": ("xor", ["g", "a"])}, outputs=["h"]),
+        "blackbox-and-constant": _build({"a": I_, "b": I_, "u.q": ("bb_output", []), "w": ("buf", ["u.q"]), "g": ("and", ["a", "w"]), "h": ("xor", ["g", "b"]), "k": ("1", []), "u.d": ("bb_input", ["h"])}, outputs=["h"]),
+        "only-inputs": _build({"a": I_, "b": I_}, outputs=["a"]),
+        "constants-only-cone": _build({"a": I_, "z": ("0", []), "w": ("1", []), "g": ("or", ["z", "w"]), "o": ("nand", ["g", "a"])}, outputs=["o"]),
+        "parity3": _build({"a": I_, "b": I_, "c": I_, "p": ("xnor", ["a", "b", "c"]), "q": ("nor", ["p", "a"])}, outputs=["q"]),
+        "nor-latch": _build({"s": I_, "r": I_, "q": ("nor", ["r", "qn"]), "qn": ("nor", ["s", "q"])}, outputs=["q"]),
+        "oscillator-under-enable": _build({"en": I_, "g": ("nand", ["en", "g"]), "o": ("buf", ["g"])}, outputs=["o"]),
+    }
+    n_mc = 0
+    for polarity in (False, True):
+        PM = pipeline_package(repo, polarity)
+        for mname, cm in cmodels.items():
+            cons = consistent_valuations(cm)
+            sps = sorted(cm.startpoints())
+            nodes = sorted(cm.nodes())
+            asms = [None, {}]
+            for n_ in nodes:
+                asms += [{n_: True}, {n_: False}]
+            for n1, n2 in list(_it.combinations(nodes, 2))[:: (3 if chk.tier == "quick" else 1)]:
+                asms += [{n1: True, n2: False}, {n1: False, n2: False}]
+            prob = None
+            n_mc += len(asms)  # (the first disagreement ends a model circuit's loop; the floor counts the planned evaluations)
+            for asm in asms:
+                want = len({tuple(v[s_] for s_ in sps) for v in cons if agrees(v, asm)})
+                r = PM.call(FILE, "model_count", cm, dict(asm) if asm is not None else None)
+                if r[0] != "return" or r[1] != want or isinstance(r[1], bool):
+                    prob = {"assumptions": str(asm), "result": str(r)[:100], "expected": want, "startpoints": sps}
+                    break
+            chk.ob("C08.B.value", f"model_count::{mname}::{'positive' if polarity else 'negative'}-branching", prob is None, file=FILE, func="model_count", line=fm.node.lineno,
+                   fact=prob or {"assumption_sets": len(asms)}, expect="number of startpoint valuations that extend to a consistent valuation satisfying the assumptions")
+    chk.floor("model_count pipeline evaluations", n_mc, 200)
+
     # ---- P: signal_probability ----------------------------------------
     fp = repo.func("props.py", "signal_probability")
     pp = func_params(fp.node)
